@@ -272,10 +272,14 @@ func (w *world) exchangeOne(raw []byte, method string, wait time.Duration) (resp
 }
 
 func readOneResponse(c net.Conn, method string, wait time.Duration) (resp []byte, m *ref.Message, closed bool, err error) {
-	deadline := time.Now().Add(wait)
-	buf := make([]byte, 64*1024)
+	// `wait` bounds the time WITHOUT PROGRESS (no new byte), not the total time: a
+	// slow transfer on a loaded machine is not a stall. A hard cap keeps the case bounded.
+	hardCap := time.Now().Add(wait * 12)
+	lastProgress := time.Now()
+	buf := make([]byte, 256*1024)
+	nextTry := 0 // re-parse only when the buffer grew noticeably, on a quiet tick, or on close
 	for {
-		if len(resp) > 0 {
+		if len(resp) > 0 && (len(resp) >= nextTry || closed) {
 			pm, perr := ref.ParseResponse(resp, method, closed)
 			if perr == nil {
 				return resp, pm, closed, nil
@@ -283,16 +287,27 @@ func readOneResponse(c net.Conn, method string, wait time.Duration) (resp []byte
 			if perr != ref.ErrIncomplete {
 				return resp, nil, closed, perr
 			}
+			nextTry = len(resp) + len(resp)/4 + 1
 		}
 		if closed {
 			return resp, nil, true, ref.ErrIncomplete
 		}
-		c.SetReadDeadline(deadline)
+		c.SetReadDeadline(time.Now().Add(150 * time.Millisecond))
 		n, rerr := c.Read(buf)
 		resp = append(resp, buf[:n]...)
+		if n > 0 {
+			lastProgress = time.Now()
+		}
 		if rerr != nil {
 			if ne, ok := rerr.(net.Error); ok && ne.Timeout() {
-				return resp, nil, false, fmt.Errorf("timeout waiting for response (have %d bytes)", len(resp))
+				nextTry = 0 // quiet tick: the message may be complete
+				if time.Since(lastProgress) > wait || time.Now().After(hardCap) {
+					if pm, perr := ref.ParseResponse(resp, method, false); perr == nil {
+						return resp, pm, false, nil
+					}
+					return resp, nil, false, fmt.Errorf("timeout waiting for response (have %d bytes, no progress for %v)", len(resp), time.Since(lastProgress).Round(time.Millisecond))
+				}
+				continue
 			}
 			closed = true
 		}
